@@ -179,6 +179,14 @@ def _sig(s):
     return (sorted(map(str, s['elem'])), sorted(map(str, s['attr'])), sorted(map(str, s['ret'])), sorted(map(str, s['glob'])))
 
 
+def _memoised(fn):
+    for dec in fn.decorator_list:
+        dn = dotted(dec.func if isinstance(dec, ast.Call) else dec) or ''
+        if dn.split('.')[-1] in ('lru_cache', 'cache'):
+            return True
+    return False
+
+
 def params_of(fn):
     a = fn.args
     names = [x.arg for x in a.posonlyargs + a.args]
@@ -330,6 +338,10 @@ class FuncAnalysis:
             for m, c, fn, dyn, recv in tg:
                 if recv == 'new':
                     continue                      # a new object: fresh
+                if _memoised(fn):
+                    # the value of a memoised function is SHARED by every caller that passes the same arguments: it is module-level
+                    # state (harmless while nobody writes to it -- a compiled class -- a leak between fits as soon as somebody does)
+                    out.add(('g', m, 'cache-of:' + fn.name))
                 s = self.pkg.summary(m, fn, c, dyn)
                 b = self.bind(fn, e, recv)
                 for r in s['ret']:
@@ -491,7 +503,7 @@ class FuncAnalysis:
             elif isinstance(n, ast.Call):
                 self.visit_call(n)
             elif isinstance(n, ast.Return) and n.value is not None:
-                self.ret |= {r for r in self.roots(n.value) if r[0] == 'p'}
+                self.ret |= self.roots(n.value)
         return dict(elem=self.elem, attr=self.attr, ret=self.ret, glob=self.glob, memo=self.memo)
 
     def assign(self, t, value):
